@@ -253,6 +253,21 @@ func checkTexts(importPath string, names [2][]string, texts [2]map[string]string
 				// places comments by position, so the printed form is not meaningful here
 				continue
 			}
+			synthetic := false
+			for _, imp := range merged[i].Imports {
+				if imp != nil && imp.Name != nil && imp.Name.Name == "_" && !imp.Name.NamePos.IsValid() {
+					synthetic = true
+				}
+			}
+			if synthetic {
+				// pruneImports keeps a directive-bearing import (unsafe, embed) as `_ "embed"` with
+				// an identifier that has no position; go/printer then places the comments that
+				// follow the import block by position inside it. The AST-level comparison above
+				// already checked the directives of every declaration, the printed form says
+				// nothing more here (found by the thorough tier: 2 of 224085 pairs; false alarm
+				// of this secondary oracle, not a defect of the merge).
+				continue
+			}
 			pf := token.NewFileSet()
 			f, err := parser.ParseFile(pf, expNames[i], printed[expNames[i]], parser.ParseComments)
 			if err != nil {
